@@ -2,9 +2,11 @@
 //! provider layer on `arbitrary::Unstructured`), so that coverage-guided mutation reaches the
 //! logic instead of dying in input validation. Shared by the fuzz targets (harness/fuzz) and by
 //! `tuv decode-fuzz`, which turns a crash artifact back into a replayable case.
-use crate::props::common::{Table, ALPHABETS};
+use crate::props::common::{special_lookalikes, SpecialCfg, Table, ALPHABETS, EXTRA_SPECIALS};
 use crate::gen;
-use crate::props::{c03, c06, c10, c11, c12, c16, c18};
+use crate::props::c04::Kind;
+use crate::props::{c01, c02, c03, c06, c10, c11, c12, c13, c14, c15, c16, c17, c18};
+use text_utils::tokenization::SPECIAL_TOKENS;
 use arbitrary::Unstructured;
 
 fn pick<'a, T: Copy>(u: &mut Unstructured, v: &'a [T]) -> Option<T> {
@@ -49,9 +51,9 @@ pub fn c12(data: &[u8]) -> Option<c12::Case> {
     })
 }
 
-pub fn c03(data: &[u8]) -> Option<c03::Case> {
-    let mut u = Unstructured::new(data);
-    let letters: Vec<String> = pick(&mut u, ALPHABETS)?.iter().map(|s| s.to_string()).collect();
+/// well-formed merge table over one of the alphabets + a text of words made of table pieces
+fn fuzz_table(u: &mut Unstructured, max_merges: usize) -> Option<(Vec<String>, Table)> {
+    let letters: Vec<String> = pick(u, ALPHABETS)?.iter().map(|s| s.to_string()).collect();
     let mut base: Vec<Vec<u8>> = vec![];
     for l in &letters {
         for b in l.as_bytes() {
@@ -63,7 +65,7 @@ pub fn c03(data: &[u8]) -> Option<c03::Case> {
     base.push(vec![b' ']);
     let mut toks = base.clone();
     let mut entries: Vec<Vec<u8>> = vec![];
-    let n = u.int_in_range(0..=32usize).ok()?;
+    let n = u.int_in_range(0..=max_merges).ok()?;
     for _ in 0..n {
         let l = u.int_in_range(0..=toks.len() - 1).ok()?;
         let r = u.int_in_range(0..=toks.len() - 1).ok()?;
@@ -74,9 +76,11 @@ pub fn c03(data: &[u8]) -> Option<c03::Case> {
         toks.push(e.clone());
         entries.push(e);
     }
-    let table = Table { entries };
-    // text: words made of pieces, separated by whitespace
-    let mut pieces: Vec<String> = letters.clone();
+    Some((letters, Table { entries }))
+}
+
+fn fuzz_table_text(u: &mut Unstructured, letters: &[String], table: &Table, max_words: usize) -> Option<String> {
+    let mut pieces: Vec<String> = letters.to_vec();
     for e in &table.entries {
         if let Ok(s) = std::str::from_utf8(e) {
             let s = s.trim_start();
@@ -86,22 +90,34 @@ pub fn c03(data: &[u8]) -> Option<c03::Case> {
         }
     }
     let seps = [" ", " ", "  ", "\t", "", "\n ", "\u{3000}"];
-    let nw = u.int_in_range(0..=6usize).ok()?;
+    let nw = u.int_in_range(0..=max_words).ok()?;
     let mut text = String::new();
     for _ in 0..nw {
         let np = u.int_in_range(1..=6usize).ok()?;
         for _ in 0..np {
             text.push_str(&pieces[u.int_in_range(0..=pieces.len() - 1).ok()?]);
         }
-        text.push_str(pick(&mut u, &seps)?);
+        text.push_str(pick(u, &seps)?);
     }
+    Some(text)
+}
+
+fn fuzz_max_vocab(u: &mut Unstructured) -> Option<(Option<usize>, bool)> {
     let mv: u8 = u.arbitrary().ok()?;
     let max_vocab = if mv < 160 { None } else { Some(256 + (mv as usize - 160)) };
+    Some((max_vocab, mv & 1 == 1))
+}
+
+pub fn c03(data: &[u8]) -> Option<c03::Case> {
+    let mut u = Unstructured::new(data);
+    let (letters, table) = fuzz_table(&mut u, 32)?;
+    let text = fuzz_table_text(&mut u, &letters, &table, 6)?;
+    let (max_vocab, graphemes) = fuzz_max_vocab(&mut u)?;
     Some(c03::Case {
         table,
         text,
         max_vocab,
-        graphemes: mv & 1 == 1,
+        graphemes,
         trained: None,
     })
 }
@@ -267,4 +283,311 @@ pub fn c06(data: &[u8]) -> Option<c06::Case> {
         padded: flags & 4 != 0,
         seed: Some((seed % 8) as u64),
     })
+}
+
+// -----------------------------------------------------------------------------------------
+// second batch: tokenizers, metrics, corruption, tensorisation
+
+/// same domain as `common::special_cfg`: defaults + distinct extras (+ duplicates), pad/prefix/
+/// suffix picked from the list
+fn fuzz_special(u: &mut Unstructured) -> Option<SpecialCfg> {
+    let flags: u8 = u.arbitrary().ok()?;
+    let defaults: Vec<String> = SPECIAL_TOKENS.iter().map(|s| s.to_string()).collect();
+    let mut tokens: Vec<String> = vec![];
+    if flags & 1 != 0 {
+        tokens.extend(defaults.clone());
+    }
+    for _ in 0..(flags >> 1) % 4 {
+        let e = pick(u, EXTRA_SPECIALS)?.to_string();
+        if !tokens.contains(&e) {
+            tokens.push(e);
+        }
+    }
+    if flags & 1 == 0 {
+        tokens.extend(defaults);
+    }
+    for _ in 0..(flags >> 3) % 3 {
+        let t = tokens[u.int_in_range(0..=tokens.len() - 1).ok()?].clone();
+        tokens.push(t);
+    }
+    let mut one = |u: &mut Unstructured| -> Option<String> { Some(tokens[u.int_in_range(0..=tokens.len() - 1).ok()?].clone()) };
+    let pad = one(u)?;
+    let np = u.int_in_range(0..=3usize).ok()?;
+    let prefix = (0..np).map(|_| one(u)).collect::<Option<Vec<_>>>()?;
+    let ns = u.int_in_range(0..=3usize).ok()?;
+    let suffix = (0..ns).map(|_| one(u)).collect::<Option<Vec<_>>>()?;
+    Some(SpecialCfg { pad, tokens, prefix, suffix })
+}
+
+fn fuzz_byte_kind(u: &mut Unstructured) -> Option<Kind> {
+    let flags: u8 = u.arbitrary().ok()?;
+    let pad_to = match flags >> 3 {
+        0..=11 => None,
+        k => Some(1usize << ((k - 12) % 10)),
+    };
+    Some(Kind::Byte { graphemes: flags & 1 != 0, code_point_groups: flags & 2 != 0, pad_to, sum: flags & 4 != 0 })
+}
+
+/// fragments without hazards/random characters mixed with an extra pool (as `gen::text_with`)
+fn fuzz_text_with(u: &mut Unstructured, extra: &[String], max: usize) -> Option<String> {
+    let n = u.int_in_range(0..=max).ok()?;
+    let mut s = String::new();
+    for _ in 0..n {
+        let k: u8 = u.arbitrary().ok()?;
+        match k % 10 {
+            0 | 1 => s.push_str(pick(u, gen::ASCII_FRAGS)?),
+            2 => s.push_str(pick(u, gen::MULTI_FRAGS)?),
+            3 => s.push_str(pick(u, gen::WS_FRAGS)?),
+            4 => s.push_str(pick(u, gen::COMBINING_FRAGS)?),
+            5 => s.push_str(pick(u, gen::NFKC_FRAGS)?),
+            _ if !extra.is_empty() => s.push_str(&extra[u.int_in_range(0..=extra.len() - 1).ok()?]),
+            _ => s.push('a'),
+        }
+    }
+    Some(s)
+}
+
+pub fn c01(data: &[u8]) -> Option<c01::Case> {
+    let mut u = Unstructured::new(data);
+    let special = fuzz_special(&mut u)?;
+    let flags: u8 = u.arbitrary().ok()?;
+    let kind = if flags & 1 != 0 {
+        fuzz_byte_kind(&mut u)?
+    } else {
+        let mut unks = special.unique_tokens();
+        unks.push("<unknown>".to_string());
+        unks.push("[?]".to_string());
+        Kind::Char { graphemes: flags & 2 != 0, unk: unks[u.int_in_range(0..=unks.len() - 1).ok()?].clone() }
+    };
+    let look = special_lookalikes(&special);
+    let text = if flags & 8 != 0 { fuzz_text(&mut u, 16, false)? } else { fuzz_text_with(&mut u, &look, 16)? };
+    Some(c01::Case { kind, special, text, ignore_special: flags & 4 != 0 })
+}
+
+pub fn c02(data: &[u8]) -> Option<c02::Case> {
+    let mut u = Unstructured::new(data);
+    let (letters, table) = fuzz_table(&mut u, 48)?;
+    let special = fuzz_special(&mut u)?;
+    let flags: u8 = u.arbitrary().ok()?;
+    let mut text = fuzz_table_text(&mut u, &letters, &table, 6)?;
+    if flags & 1 != 0 {
+        text.push_str(&fuzz_text(&mut u, 8, false)?);
+    }
+    if flags & 2 != 0 {
+        text.push_str(pick(&mut u, gen::WS_FRAGS)?);
+    }
+    let (max_vocab, graphemes) = fuzz_max_vocab(&mut u)?;
+    Some(c02::Case { table, text, max_vocab, graphemes, special })
+}
+
+pub fn c14(data: &[u8]) -> Option<c14::Case> {
+    let mut u = Unstructured::new(data);
+    let flags: u8 = u.arbitrary().ok()?;
+    let g = flags & 1 != 0;
+    let special = fuzz_special(&mut u)?;
+    let kind = fuzz_byte_kind(&mut u)?;
+    let prob = |u: &mut Unstructured| -> Option<f64> {
+        let b: u8 = u.arbitrary().ok()?;
+        Some(match b {
+            0..=39 => 0.0,
+            40..=79 => 0.05,
+            80..=119 => 0.3,
+            120..=159 => 0.7,
+            160..=199 => 1.0,
+            _ => (b - 200) as f64 / 55.0,
+        })
+    };
+    let mut p_ins = prob(&mut u)?;
+    let p_del = prob(&mut u)?;
+    if p_ins <= 0.0 && p_del <= 0.0 {
+        // (0,0) is rejected by a panic at construction, which libFuzzer's abort-on-panic hook
+        // would turn into a crash; the proptest tier covers the rejection
+        p_ins = 0.3;
+    }
+    let seed: u64 = u.arbitrary().ok()?;
+    let nw = u.int_in_range(0..=8usize).ok()?;
+    let mut words = vec![];
+    for _ in 0..nw {
+        let nc = u.int_in_range(1..=6usize).ok()?;
+        let mut w = String::new();
+        for _ in 0..nc {
+            if g {
+                w.push_str(pick(&mut u, gen::CLOSED_POOL)?);
+            } else {
+                let k: u8 = u.arbitrary().ok()?;
+                let ch = match k % 8 {
+                    0..=3 => pick(&mut u, gen::ASCII_FRAGS)?.chars().next()?,
+                    4 | 5 => pick(&mut u, gen::MULTI_FRAGS)?.chars().next()?,
+                    6 => pick(&mut u, gen::HAZARD_FRAGS)?.chars().next()?,
+                    _ => pick(&mut u, gen::NFKC_FRAGS)?.chars().next()?,
+                };
+                if ch.is_whitespace() {
+                    return None;
+                }
+                w.push(ch);
+            }
+        }
+        words.push(w);
+    }
+    Some(c14::Case { text: words.join(" "), p_ins, p_del, seed, graphemes: g, corrupt_target: flags & 2 != 0, kind, special })
+}
+
+pub fn c17(data: &[u8]) -> Option<c17::Case> {
+    let mut u = Unstructured::new(data);
+    let special = fuzz_special(&mut u)?;
+    let kind = fuzz_byte_kind(&mut u)?;
+    let flags: u8 = u.arbitrary().ok()?;
+    let look = special_lookalikes(&special);
+    let n = u.int_in_range(1..=6usize).ok()?;
+    let mut items = vec![];
+    for _ in 0..n {
+        let t = fuzz_text_with(&mut u, &look, 6)?;
+        let b: u8 = u.arbitrary().ok()?;
+        items.push((t, b));
+    }
+    let separator = match (flags >> 4) % 5 {
+        0 => None,
+        1 => Some(" => "),
+        2 => Some("\n"),
+        3 => Some("<sep>"),
+        _ => Some(""),
+    }
+    .map(str::to_string);
+    Some(c17::Case { items, kind, special, ignore_special: flags & 1 != 0, task: (flags >> 1) % 4, mask_input: flags & 8 != 0, separator })
+}
+
+pub fn c15(data: &[u8]) -> Option<c15::Case> {
+    let mut u = Unstructured::new(data);
+    let flags: u8 = u.arbitrary().ok()?;
+    let g = flags & 1 != 0;
+    let al = c15::alpha(g, flags & 2 != 0);
+    let cat = |u: &mut Unstructured, lo: usize, hi: usize| -> Option<String> {
+        let n = u.int_in_range(lo..=hi).ok()?;
+        let mut s = String::new();
+        for _ in 0..n {
+            s.push_str(pick(u, al)?);
+        }
+        Some(s)
+    };
+    let word = cat(&mut u, 0, 10)?;
+    let kinds = u.int_in_range(1..=15u8).ok()?;
+    let edits = |u: &mut Unstructured| -> Option<Vec<(String, u8)>> {
+        let n = u.int_in_range(1..=3usize).ok()?;
+        (0..n).map(|_| Some((cat(u, 0, 3)?, u.int_in_range(1..=4u8).ok()?))).collect()
+    };
+    let ctx = |u: &mut Unstructured, marker: &str| -> Option<String> {
+        let i = u.int_in_range(0..=al.len() + 1).ok()?;
+        Some(if i >= al.len() { marker.to_string() } else { al[i].to_string() })
+    };
+    let ni = u.int_in_range(0..=10usize).ok()?;
+    let mut insert = vec![];
+    for _ in 0..ni {
+        insert.push(((ctx(&mut u, "<bow>")?, ctx(&mut u, "<eow>")?), edits(&mut u)?));
+    }
+    let nr = u.int_in_range(0..=14usize).ok()?;
+    let mut replace = vec![];
+    for _ in 0..nr {
+        replace.push(((ctx(&mut u, "<bow>")?, pick(&mut u, al)?.to_string(), ctx(&mut u, "<eow>")?), edits(&mut u)?));
+    }
+    let list = |u: &mut Unstructured| -> Option<Vec<String>> {
+        let n = u.int_in_range(0..=5usize).ok()?;
+        if n > 3 {
+            return Some(vec![]);
+        }
+        (0..n).map(|_| pick(u, al).map(str::to_string)).collect()
+    };
+    let deletable = list(&mut u)?;
+    let swappable = list(&mut u)?;
+    let n = gen::clusters(&word, g).len();
+    let ne = u.int_in_range(0..=4usize).ok()?;
+    let mut exclude = vec![];
+    for _ in 0..ne {
+        let e = u.int_in_range(0..=10usize).ok()?;
+        if e < n {
+            exclude.push(e);
+        }
+    }
+    exclude.sort();
+    exclude.dedup();
+    let seed: u64 = u.arbitrary().ok()?;
+    let chain = u.int_in_range(1..=6usize).ok()?;
+    Some(c15::Case {
+        word,
+        graphemes: g,
+        kinds,
+        tables: c15::Tables { insert, replace, mock: flags & 12 == 12 },
+        full_delete: flags & 16 != 0,
+        deletable,
+        swappable,
+        exclude,
+        seed,
+        chain,
+        sentence: None,
+    })
+}
+
+pub fn c13(data: &[u8]) -> Option<c13::Case> {
+    let mut u = Unstructured::new(data);
+    let flags: u8 = u.arbitrary().ok()?;
+    let beta = [0.5f64, 1.0, 2.0][(flags >> 1) as usize % 3];
+    let rot = (flags >> 3) as usize % 6;
+    let word = |u: &mut Unstructured| -> Option<String> { pick(u, c13::WORDS).map(str::to_string) };
+    let sub = match u.int_in_range(0..=2u8).ok()? {
+        0 => {
+            let nt = u.int_in_range(0..=4usize).ok()?;
+            let mut triples = vec![];
+            for _ in 0..nt {
+                let nw = u.int_in_range(0..=6usize).ok()?;
+                let target: Vec<String> = (0..nw).map(|_| word(&mut u)).collect::<Option<_>>()?;
+                let ops = |u: &mut Unstructured| -> Option<Vec<(u8, u16, String)>> {
+                    let n = u.int_in_range(0..=3usize).ok()?;
+                    (0..n).map(|_| Some((u.arbitrary().ok()?, u.arbitrary().ok()?, word(u)?))).collect()
+                };
+                let e1 = ops(&mut u)?;
+                let e2 = ops(&mut u)?;
+                let m: u8 = u.arbitrary().ok()?;
+                let input = c13::corrupt(&target, &e1);
+                let pred = match m % 8 {
+                    0 | 1 => target.clone(),
+                    2 => input.clone(),
+                    3 => c13::corrupt(&input, &e2),
+                    4 => c13::corrupt(&target, &e2),
+                    5 => vec![],
+                    _ => c13::corrupt(&input, &e2[..e2.len().min(1)]),
+                };
+                let ns = u.int_in_range(1..=3usize).ok()?;
+                let seps: Vec<String> = (0..ns).map(|_| pick(&mut u, &[" ", " ", " ", "  ", "\t", " \n"]).map(str::to_string)).collect::<Option<_>>()?;
+                let p = if m & 128 != 0 { " " } else { "" };
+                triples.push((format!("{p}{}", c13::join(&input, &seps)), c13::join(&pred, &seps), format!("{}{p}", c13::join(&target, &seps))));
+            }
+            c13::Sub::Spelling { triples }
+        }
+        1 => {
+            let ns = u.int_in_range(0..=4usize).ok()?;
+            let mut seqs = vec![];
+            for _ in 0..ns {
+                let n = u.int_in_range(0..=8usize).ok()?;
+                let mut chars = vec![];
+                let (mut a, mut b, mut c) = (vec![], vec![], vec![]);
+                for _ in 0..n {
+                    chars.push(pick(&mut u, c13::WS_ALPHA)?.to_string());
+                    let k: u8 = u.arbitrary().ok()?;
+                    a.push(k & 1 != 0);
+                    b.push(k & 2 != 0);
+                    c.push(k & 4 != 0);
+                }
+                seqs.push((chars, a, b, c));
+            }
+            c13::Sub::Whitespace { seqs, mode: u.int_in_range(0..=2u8).ok()? }
+        }
+        _ => {
+            let nt = u.int_in_range(0..=3usize).ok()?;
+            let mut triples = vec![];
+            for _ in 0..nt {
+                triples.push((fuzz_text(&mut u, 5, false)?, fuzz_text(&mut u, 5, false)?, fuzz_text(&mut u, 5, false)?));
+            }
+            c13::Sub::Wild { triples, mode: u.int_in_range(0..=2u8).ok()? }
+        }
+    };
+    Some(c13::Case { sub, beta, graphemes: flags & 1 != 0, rot })
 }
